@@ -532,10 +532,12 @@ def runOpCase (tok : List String) : String × String :=
 inductive DbTok
   | op (o : DbOp)
   | read (t : Table) (s c : Nat)
+  | commit                       -- `c`: end of the current transaction (no output of its own)
 
 def normVal (t : Table) (v : Nat) : Nat := if t.isBit then (if v = 0 then 0 else 1) else v
 
 def parseDbTok (s : String) : Option DbTok :=
+  if s = "c" then some .commit else
   match s.toList with
   | [] => none
   | k :: restChars =>
@@ -588,11 +590,14 @@ def runDb (tok : List String) : String × String :=
       let (_, outM) := toks.foldl (fun (acc : Db × List String) t =>
         match t with
         | .op o => let (db', r) := acc.1.step o; (db', acc.2 ++ [dbResText r])
-        | .read tb s c => (acc.1, acc.2 ++ [dbClientRead acc.1 tb s c])) (({} : Db), [])
+        | .read tb s c => (acc.1, acc.2 ++ [dbClientRead acc.1 tb s c])
+        | .commit => acc) (({} : Db), [])
       let (_, outS) := toks.foldl (fun (acc : Spec.AMap × List String) t =>
         match t with
         | .op o => let r := acc.1.step o; (r.1, acc.2 ++ [dbResText r.2])
-        | .read tb s c => (acc.1, acc.2 ++ [specClientRead acc.1 tb s c])) (Spec.AMap.empty, [])
+        | .read tb s c => (acc.1, acc.2 ++ [specClientRead acc.1 tb s c])
+        | .commit => acc) (Spec.AMap.empty, [])
+      if outM.isEmpty then both "-" else
       (";".intercalate outM, ";".intercalate outS)
   | _ => bad
 
@@ -666,6 +671,403 @@ def runFnet (tok : List String) : String × String :=
     | _, _, _ => bad
   | _ => bad
 
+/-! ### `ffi reuse`: caller-owned objects handed to several calls -/
+
+/-- the completion of one read through the C ABI as the harness prints it -/
+def readText (db : Db) (unit : Nat) (op : FOp) (s c : Nat) : String :=
+  let o := runOp (.server applyApp [2]) unit db op (.range s c)
+  match o.submit with
+  | .accepted => if o.fired.result.isEmpty then "none" else "+".intercalate o.fired.result
+  | sub => s!"rc.{sub.returnCode}"
+
+def allDigits (s : String) : Bool := ¬ s.isEmpty ∧ s.toList.all Char.isDigit
+
+def natList? (s : String) (sep : String) : Option (List Nat) :=
+  (s.splitOn sep).mapM fun x => if allDigits x then some (ffiNatOf x) else none
+
+def specPoint (table a : Nat) : Option Nat :=
+  if a < 100 then some (if table = 0 ∨ table = 1 then ffiBit table a else ffiReg table a) else none
+
+def specValuesText (isBits : Bool) (start : Nat) (vs : List Nat) : String :=
+  if isBits then s!"b{start}:" ++ String.ofList (vs.map fun v => if v = 0 then '0' else '1')
+  else s!"g{start}:" ++ "/".intercalate (vs.map toString)
+
+def runReuseList (opTok valTok startsTok : String) : String × String :=
+  match FOp.parse opTok, natList? startsTok "," with
+  | some op, some starts =>
+    if op ≠ .wC ∧ op ≠ .wR then bad else
+    let isBits := op = .wC
+    let okVals := valTok = "-" ∨ (if isBits then valTok.toList.all (fun c => c = '0' ∨ c = '1') ∧ ¬ valTok.isEmpty
+      else (natList? valTok "/").isSome)
+    if ¬ okVals then bad else
+    let bitVals : List Bool := if valTok = "-" then [] else valTok.toList.map (· = '1')
+    let regVals : List Nat := if valTok = "-" then [] else (natList? valTok "/").getD []
+    let n := if isBits then bitVals.length else regVals.length
+    -- MODEL: the one list object is threaded through the submissions
+    let reqs : List (Nat × FArgs) :=
+      if isBits then ((ListObj.mk bitVals).submitAll starts).1.map fun (s, vs) => (s, FArgs.bits s vs)
+      else ((ListObj.mk regVals).submitAll starts).1.map fun (s, vs) => (s, FArgs.regs s vs)
+    let (dbEnd, linesM, _) := reqs.foldl (fun (acc : Db × List String × Nat) r =>
+      let o := runOp (.server applyApp [2]) 1 acc.1 op r.2
+      (o.db, acc.2.1 ++ [s!"w{acc.2.2}:rc={o.submit.returnCode},{o.fired.text},app={logText o.app}"], acc.2.2 + 1))
+      (mainDb, [], 1)
+    let rop : FOp := if isBits then .rc else .rh
+    let rbM := starts.map fun s => if n = 0 then "-" else readText dbEnd 1 rop s n
+    let m := (if linesM.isEmpty then "-" else ";".intercalate linesM) ++ " rb=" ++ ";".intercalate rbM
+    -- SPECIFICATION: the same values every time, applied to a point memory
+    let vals : List Nat := if isBits then bitVals.map b2n else regVals
+    let mem0 : Spec.Mem := specPoint (if isBits then 0 else 2)
+    let (flags, memEnd) := Spec.Mem.writeSame mem0 vals starts
+    let linesS := (List.range starts.length).map fun k =>
+      let s := starts.getD k 0
+      match flags.getD k (false, false) with
+      | (false, _) => s!"w{k + 1}:rc=InvalidRequest,BadRequest c0 f1 d1,app=-"
+      | (true, ok) =>
+        let app := (if isBits then "wC." else "wR.") ++ toString s ++ "." ++ specValuesText isBits s vals
+        if ok then s!"w{k + 1}:rc=Ok,complete c1 f0 d1,app={app}"
+        else s!"w{k + 1}:rc=Ok,{specFfiName 2} c0 f1 d1,app={app}"
+    let rbS := starts.map fun s =>
+      if n = 0 then "-"
+      else if s + n > 65536 ∨ n > (if isBits then 2000 else 125) then "rc.InvalidRange"
+      else match memEnd.readAll s n with
+        | some vs => specValuesText isBits s vs
+        | none => specFfiName 2
+    let sp := (if linesS.isEmpty then "-" else ";".intercalate linesS) ++ " rb=" ++ ";".intercalate rbS
+    (m, sp)
+  | _, _ => bad
+
+def variantArgs (v : Char) (op : FOp) : FArgs :=
+  match v, op with
+  | 'z', .rc | 'z', .rd | 'z', .rh | 'z', .ri => .range 5 0
+  | 'z', .wC => .bits 3 []
+  | 'z', .wR => .regs 3 []
+  | _, _ => defaultArgs op
+
+def runReuseCb (opTok variants : String) : String × String :=
+  match FOp.parse opTok with
+  | none => bad
+  | some op =>
+    let vs := variants.toList
+    if vs.isEmpty ∨ ¬ vs.all (fun c => c = 'd' ∨ c = 'z' ∨ c = 'n') then bad else
+    -- MODEL: every call fires on its own; the one context sees the merged invocations
+    let (_, rcsM, firedM) := vs.foldl (fun (acc : Db × List String × Fired) v =>
+      if v = 'n' then (acc.1, acc.2.1 ++ [Submit.nullArgument.returnCode], acc.2.2.merge (fire .nullArgument .dropped))
+      else
+        let o := runOp (.server applyApp [2]) 1 acc.1 op (variantArgs v op)
+        (o.db, acc.2.1 ++ [o.submit.returnCode], acc.2.2.merge o.fired)) (mainDb, [], ({} : Fired))
+    let m := s!"rc={",".intercalate rcsM} ffi={firedM.text}"
+    -- SPECIFICATION: per call (return code, completion, complete?)
+    let okText : String := match op, defaultArgs op with
+      | .rc, .range s c | .rd, .range s c =>
+        specValuesText true s ((List.range c).map fun k => ffiBit (specTable op) (s + k))
+      | .rh, .range s c | .ri, .range s c =>
+        specValuesText false s ((List.range c).map fun k => ffiReg (specTable op) (s + k))
+      | _, _ => "complete"
+    let per : List (String × String × Bool) := vs.map fun v =>
+      if v = 'n' then ("NullParameter", "BadArgument", false)
+      else if v = 'z' ∧ op.isRead then ("InvalidRange", "BadRequest", false)
+      else if v = 'z' ∧ (op = .wC ∨ op = .wR) then ("InvalidRequest", "BadRequest", false)
+      else ("Ok", okText, true)
+    let nc := (per.filter (·.2.2)).length
+    let sp := s!"rc={",".intercalate (per.map (·.1))} ffi={"+".intercalate (per.map (·.2.1))} c{nc} f{per.length - nc} d{per.length}"
+    (m, sp)
+
+open Rodbus.Filter in
+def runReuseFilter (ftok addTok peer : String) : String × String :=
+  match makeFilter ftok, parseIp peer.toList with
+  | .ok f, some p =>
+    let added : Option (Option (Bool × AddressFilter)) :=
+      if addTok = "-" then some none
+      else match cStringChars addTok with
+        | none => none
+        | some cs => some (some (addressFilterAdd f cs))
+    match added with
+    | none => bad
+    | some add =>
+      -- MODEL: server A keeps the value the object had when its constructor ran
+      let (fa, callers) := snapshotFilter .tcp f
+      let callers' := match add with | some (_, f') => f' | none => callers
+      let (fb, _) := snapshotFilter .tcp callers'
+      let addText := match add with | none => "-" | some (ok, _) => if ok then "ok" else "err"
+      let sv (b : Bool) := if b then "served" else "closed"
+      (s!"a={sv (fa.matches p)} add={addText} b={sv (fb.matches p)}",
+       s!"a={sv (f.matches p)} add={addText} b={sv (callers'.matches p)}")
+  | .error "err", _ => both "badfilter"
+  | .error e, _ => both e
+  | _, _ => bad
+
+/-- holding register `a` of a short-lived unit created with tag `tag` -/
+def taggedReg (tag a : Nat) : Nat := (ffiReg 2 a + 1000 * tag) % 65536
+
+def taggedDb (tag : Nat) (_ : Db) : Db :=
+  { holding := (List.range 10).map fun a => (a, taggedReg tag a) }
+
+/-- a raw peer reading holding registers 0..2 of `unit` from a server holding `units` -/
+def probeText (units : DeviceMap) (unit : Nat) : String :=
+  match units.lookup unit with
+  | none => "silent"
+  | some db => match db.find .holding 0 with
+    | some v => s!"served.{v}"
+    | none => "exc.2"
+
+def runReuseMap (unitsTok unitTok : String) : String × String :=
+  let units? : Option (List Nat) := if unitsTok = "-" then some [] else natList? unitsTok ","
+  match units?, allDigits unitTok with
+  | some units, true =>
+    let unit := ffiNatOf unitTok
+    if units.any (· > 255) ∨ unit > 255 then bad else
+    -- MODEL
+    let (map1, flags) := units.foldl (fun (acc : DeviceMap × List String) u =>
+      let r := acc.1.addEndpoint u (taggedDb u)
+      (r.2.2, acc.2 ++ [if r.1 then "1" else "0"])) (({} : DeviceMap), [])
+    let (srvA, map2) := map1.createServer
+    let (srvB, map3) := map2.createServer
+    let re := map3.addEndpoint unit (taggedDb 50)
+    let (srvC, _) := re.2.2.createServer
+    let addText := if flags.isEmpty then "-" else ",".intercalate flags
+    let m := s!"add={addText} a={probeText srvA unit} b={probeText srvB unit} readd={if re.1 then 1 else 0} c={probeText srvC unit}"
+    -- SPECIFICATION
+    let firstTime := (List.range units.length).map fun k => if (units.take k).contains (units.getD k 0) then "0" else "1"
+    let a := if units.contains unit then s!"served.{(1959 + 1000 * unit) % 65536}" else "silent"
+    let sp := s!"add={if firstTime.isEmpty then "-" else ",".intercalate firstTime} a={a} b=silent readd=1 c=served.51959"
+    (m, sp)
+  | _, _ => bad
+
+def runReuseTx (kTok unitTok : String) : String × String :=
+  if ¬ allDigits kTok ∨ ffiNatOf kTok > 50 then bad else
+  let k := ffiNatOf kTok
+  let join (l : List String) := if l.isEmpty then "-" else ",".intercalate l
+  if unitTok = "null" then
+    let r := updateDatabase .null true
+    both s!"rc={join (List.replicate k r.1)} calls={k * r.2.1} destroyed={k * r.2.2} value=-"
+  else if ¬ allDigits unitTok ∨ ffiNatOf unitTok > 255 then bad else
+  let unit := ffiNatOf unitTok
+  match unitDb unit with
+  | none =>
+    let r := updateDatabase .live false
+    (s!"rc={join (List.replicate k r.1)} calls={k * r.2.1} destroyed={k * r.2.2} value=ResponseTimeout",
+     s!"rc={join (List.replicate k (Spec.controlReturn "server_update_database" "nounit"))} calls=0 destroyed={k} value=ResponseTimeout")
+  | some db0 =>
+    -- MODEL: k transactions, each: get; then update (v + 1) or add 1
+    let tx (db : Db) : Db :=
+      match (db.step (.get .holding 0)).2 with
+      | .val v => (db.step (.update .holding 0 ((v + 1) % 65536))).1
+      | _ => (db.step (.add .holding 0 1)).1
+    let dbEnd := (List.range k).foldl (fun db _ => tx db) db0
+    let r := updateDatabase .live true
+    let m := s!"rc={join (List.replicate k r.1)} calls={k * r.2.1} destroyed={k * r.2.2} value={readText dbEnd unit .rh 0 1}"
+    -- SPECIFICATION: closed form
+    let v0 := if unit = 1 ∨ unit = 2 then some (ffiReg 2 0) else none
+    let value := if k = 0 then (match v0 with | some v => s!"g0:{v}" | none => specFfiName 2)
+      else s!"g0:{((v0.getD 0) + k) % 65536}"
+    let sp := s!"rc={join (List.replicate k (Spec.controlReturn "server_update_database" "live"))} calls={k} destroyed={k} value={value}"
+    (m, sp)
+
+def runReuse (tok : List String) : String × String :=
+  match tok with
+  | ["list", op, vals, starts] => runReuseList op vals starts
+  | ["cb", op, variants] => runReuseCb op variants
+  | ["filter", f, add, peer] => runReuseFilter f add peer
+  | ["map", units, unit] => runReuseMap units unit
+  | ["tx", k, unit] => runReuseTx k unit
+  | _ => bad
+
+/-! ### `ffi ctl`: control functions and constructors -/
+
+def levelOk (a f p : String) : Bool :=
+  allDigits a ∧ allDigits f ∧ allDigits p ∧
+  (appDecodeLevels.rustOfInt (ffiNatOf a)).isSome ∧ (frameDecodeLevels.rustOfInt (ffiNatOf f)).isSome ∧
+  (physDecodeLevels.rustOfInt (ffiNatOf p)).isSome
+
+/-- the source error of a TLS scenario on the model side: `none` = the constructor succeeds -/
+def tlsScenarioSource (server : Bool) (scen : String) : Option (Option (String × String)) :=
+  let badConfig := some (some ("TlsError", "BadConfig"))
+  match scen with
+  | "ok" | "ca" => some none
+  | "nopeer" | "nolocal" | "nokey" | "keyiscert" | "peeriskey" | "canopeer" => badConfig
+  | "wilddns" => if server then none else some none
+  | "baddns" | "stardns" => if server then none else some (some ("TlsError", "InvalidDnsName"))
+  | "utf8peer" => if server then badConfig else some (some ("Utf8Error", "_"))
+  | "utf8dns" => if server then none else some (some ("Utf8Error", "_"))
+  | _ => none
+
+def paramErrorOf (src : Option (String × String)) : String :=
+  match src with
+  | none => "Ok"
+  | some (ty, v) => ((expectedParamErrors.find? fun r => r.1 = ty ∧ r.2.1 = v).map (·.2.2)).getD "?"
+
+def rustTextOf (src : Option (String × String)) : String :=
+  match src with
+  | none => "ok"
+  | some ("TlsError", v) => v
+  | some (ty, _) => ty
+
+/-- the structural argument errors of the server constructors, model side: the order in which
+    the constructor looks at its arguments does not matter here (one defect per scenario) -/
+def structuralSource (scen : String) : Option String :=
+  match scen with
+  | "nullrt" | "nullfilter" | "nullmap" => some Submit.nullArgument.returnCode
+  | "badip" => (expectedParamErrors.find? fun r => r.1 = "AddrParseError").map (·.2.2)
+  | "inuse" => some "ServerBindError"
+  | "ok" => some "Ok"
+  | _ => none
+
+def worldRead (op : FOp) (s c : Nat) : String := readText mainDb 1 op s c
+
+def specWorldRead (op : FOp) (s c : Nat) : String :=
+  if op = .rc ∨ op = .rd then specValuesText true s ((List.range c).map fun k => ffiBit (specTable op) (s + k))
+  else specValuesText false s ((List.range c).map fun k => ffiReg (specTable op) (s + k))
+
+def runCtl (tok : List String) : String × String :=
+  match tok with
+  | ["cdecode", a, f, p, target] =>
+    if ¬ levelOk a f p then bad else
+    let fn := "client_channel_set_decode_level"
+    match target with
+    | "world" => (s!"rc={CtlTarget.live.returnCode} read={worldRead .rc 0 8}",
+                  s!"rc={Spec.controlReturn fn "live"} read={specWorldRead .rc 0 8}")
+    | "tmp" =>
+      let o := runOp (.fixed .noConnection) 1 {} .rc (.range 0 8)
+      (s!"rc={CtlTarget.live.returnCode} read={"+".intercalate o.fired.result}",
+       s!"rc={Spec.controlReturn fn "live"} read=NoConnection")
+    | "null" => (s!"rc={CtlTarget.null.returnCode} read=-", s!"rc={Spec.controlReturn fn "null"} read=-")
+    | "dead" => (s!"rc={CtlTarget.closed.returnCode} read=rc.{Submit.channelClosed.returnCode}",
+                 s!"rc={Spec.controlReturn fn "closed"} read=rc.Shutdown")
+    | _ => bad
+  | ["sdecode", a, f, p, target] =>
+    if ¬ levelOk a f p then bad else
+    let fn := "server_set_decode_level"
+    match target with
+    | "world" => (s!"rc={CtlTarget.live.returnCode} read={worldRead .rh 0 4}",
+                  s!"rc={Spec.controlReturn fn "live"} read={specWorldRead .rh 0 4}")
+    | "null" => (s!"rc={CtlTarget.null.returnCode} read=-", s!"rc={Spec.controlReturn fn "null"} read=-")
+    | "async" => (s!"rc={CtlTarget.withinAsync.returnCode} read={worldRead .rh 0 4}",
+                  s!"rc={Spec.controlReturn fn "withinAsync"} read={specWorldRead .rh 0 4}")
+    | _ => bad
+  | ["endis", script] =>
+    if script = "null" then
+      (s!"e:{CtlTarget.null.returnCode},d:{CtlTarget.null.returnCode}",
+       s!"e:{Spec.controlReturn "client_channel_enable" "null"},d:{Spec.controlReturn "client_channel_disable" "null"}")
+    else
+      let steps := script.toList
+      if steps.isEmpty ∨ steps.length > 32 ∨ ¬ steps.all (fun c => c = 'e' ∨ c = 'd' ∨ c = 'r') then bad else
+      let (_, outM, outS) := steps.foldl (fun (acc : Bool × List String × List String) c =>
+        if c = 'e' then (true, acc.2.1 ++ [s!"e:{CtlTarget.live.returnCode}"],
+                         acc.2.2 ++ [s!"e:{Spec.controlReturn "client_channel_enable" "live"}"])
+        else if c = 'd' then (false, acc.2.1 ++ [s!"d:{CtlTarget.live.returnCode}"],
+                              acc.2.2 ++ [s!"d:{Spec.controlReturn "client_channel_disable" "live"}"])
+        else
+          let m := if acc.1 then worldRead .rh 0 4
+            else "+".intercalate (runOp (.fixed .noConnection) 1 {} .rh (.range 0 4)).fired.result
+          let s := if acc.1 then specWorldRead .rh 0 4 else "NoConnection"
+          (acc.1, acc.2.1 ++ [s!"r:{m}"], acc.2.2 ++ [s!"r:{s}"])) (false, [], [])
+      (",".intercalate outM, ",".intercalate outS)
+  | ["rtucli", what] =>
+    match what with
+    | "missing" =>
+      let o := runOp (.fixed .noConnection) 1 {} .rh (.range 0 4)
+      let ps (n : Nat) := (portState.ffiOfInt n).getD "?"
+      (s!"rc=Ok en={CtlTarget.live.returnCode} port={ps 1} req={o.submit.returnCode},{o.fired.text} dl={CtlTarget.live.returnCode} dis={CtlTarget.live.returnCode} port={ps 0} rust={o.rust}",
+       "rc=Ok en=Ok port=Wait req=Ok,NoConnection c0 f1 d1 dl=Ok dis=Ok port=Disabled rust=noconn")
+    | "nullrt" => (s!"rc={CtlTarget.null.returnCode}", "rc=NullParameter")
+    | _ => bad
+  | ["rtusrv", what] =>
+    match what with
+    | "missing" =>
+      let t := updateDatabase .live true
+      let b := updateDatabase .live false
+      (s!"rc=Ok tx={t.1},{t.2.1} bad={b.1},{b.2.1} dl={CtlTarget.live.returnCode} rust=ok",
+       s!"rc=Ok tx={Spec.controlReturn "server_update_database" "live"},1 bad={Spec.controlReturn "server_update_database" "nounit"},0 dl={Spec.controlReturn "server_set_decode_level" "live"} rust=ok")
+    | "nullrt" | "nullmap" => (s!"rc={CtlTarget.null.returnCode}", "rc=NullParameter")
+    | _ => bad
+  | ["tlscli", scen] =>
+    if scen = "nullrt" then (s!"rc={CtlTarget.null.returnCode} ch=0 rust=-", "rc=NullParameter ch=0 rust=-") else
+    match tlsScenarioSource false scen, Spec.tlsClientScenarios.lookup scen with
+    | some src, some (rust, rc) =>
+      (s!"rc={paramErrorOf src} ch={if src.isNone then 1 else 0} rust={rustTextOf src}",
+       s!"rc={rc} ch={if rc = "Ok" then 1 else 0} rust={rust}")
+    | _, _ => bad
+  | ["tlssrv", variant, scen] =>
+    if variant ≠ "tls" ∧ variant ≠ "tlsauth" then bad else
+    if ["nullrt", "nullfilter", "nullmap", "badip"].contains scen then
+      match structuralSource scen, Spec.structuralScenarios.lookup scen with
+      | some rc, some rcS =>
+        let mp := if scen = "nullmap" then "-" else "served"
+        (s!"rc={rc} srv=0 map={mp} rust=-", s!"rc={rcS} srv=0 map={mp} rust=-")
+      | _, _ => bad
+    else
+    match tlsScenarioSource true scen, Spec.tlsServerScenarios.lookup scen with
+    | some src, some (rust, rc) =>
+      -- a constructor that fails on its configuration has not touched the caller's map
+      let units : DeviceMap := (({} : DeviceMap).addEndpoint 1 (taggedDb 0)).2.2
+      let after := if src.isNone then "-" else
+        (if probeText units.createServer.1 1 = s!"served.{taggedReg 0 0}" then "served" else "?")
+      (s!"rc={paramErrorOf src} srv={if src.isNone then 1 else 0} map={after} rust={rustTextOf src}",
+       s!"rc={rc} srv={if rc = "Ok" then 1 else 0} map={if rc = "Ok" then "-" else "served"} rust={rust}")
+    | _, _ => bad
+  | ["tcpsrv", scen] =>
+    match structuralSource scen, Spec.structuralScenarios.lookup scen with
+    | some rc, some rcS =>
+      (s!"rc={rc} srv={if rc = "Ok" then 1 else 0} world={worldRead .rh 0 4}",
+       s!"rc={rcS} srv={if rcS = "Ok" then 1 else 0} world={specWorldRead .rh 0 4}")
+    | _, _ => bad
+  | ["mapdup", "null"] => both "add=0 cfg=0"
+  | ["mapdup", ua, ub] =>
+    if ¬ allDigits ua ∨ ¬ allDigits ub ∨ ffiNatOf ua > 255 ∨ ffiNatOf ub > 255 then bad else
+    let (ua, ub) := (ffiNatOf ua, ffiNatOf ub)
+    let r1 := ({} : DeviceMap).addEndpoint ua (taggedDb 1)
+    let r2 := r1.2.2.addEndpoint ub (taggedDb 2)
+    let srv := r2.2.2.createServer.1
+    let b2s (b : Bool) := if b then "1" else "0"
+    (s!"add={b2s r1.1},{b2s r2.1} cfg={r1.2.1},{r2.2.1} a={probeText srv ua} b={probeText srv ub}",
+     if ua = ub then s!"add=1,0 cfg=1,0 a=served.2959 b=served.2959"
+     else s!"add=1,1 cfg=1,1 a=served.2959 b=served.3959")
+  | ["txunit", u] =>
+    if u = "null" then
+      let r := updateDatabase .null true
+      (s!"rc={r.1} calls={r.2.1} destroyed={r.2.2}", s!"rc={Spec.controlReturn "server_update_database" "null"} calls=0 destroyed=1")
+    else if ¬ allDigits u ∨ ffiNatOf u > 255 then bad else
+      let ex := (unitDb (ffiNatOf u)).isSome
+      let r := updateDatabase .live ex
+      (s!"rc={r.1} calls={r.2.1} destroyed={r.2.2}",
+       if ex then s!"rc={Spec.controlReturn "server_update_database" "live"} calls=1 destroyed=1"
+       else s!"rc={Spec.controlReturn "server_update_database" "nounit"} calls=0 destroyed=1")
+  | ["iter", opTok, s, c, take] =>
+    match FOp.parse opTok with
+    | some op =>
+      if ¬ op.isRead ∨ ¬ allDigits s ∨ ¬ allDigits c ∨ ¬ allDigits take ∨ ffiNatOf take > 3000
+        ∨ ffiNatOf s > 65535 ∨ ffiNatOf c > 65535 then bad else
+      let (s, c, take) := (ffiNatOf s, ffiNatOf c, ffiNatOf take)
+      let isBits := op = .rc ∨ op = .rd
+      let showItem (x : Option (Nat × Nat)) : String := match x with
+        | some (i, v) => s!"{i}:{v}" | none => "null"
+      -- MODEL: the values the client decoded, handed out one by one
+      let o := runOp (.server applyApp [2]) 1 mainDb op (.range s c)
+      let itemsM : String :=
+        match o.submit, o.task with
+        | .accepted, .success _ =>
+          let vals : List (Nat × Nat) := (List.range c).map fun k =>
+            (s + k, (mainDb.find (Table.ofIdx (specTable op)) (s + k)).getD 0)
+          ",".intercalate ((iterTake vals take).map showItem ++ ["nullit=null"])
+        | _, _ => "+".intercalate o.fired.result
+      let m := s!"rc={o.submit.returnCode} items={itemsM} next={worldRead op 0 2}"
+      -- SPECIFICATION
+      let lim := if isBits then 2000 else 125
+      let sp :=
+        if c = 0 ∨ s + c > 65536 ∨ c > lim then s!"rc=InvalidRange items=BadRequest next={specWorldRead op 0 2}"
+        else if s + c > 100 then s!"rc=Ok items={specFfiName 2} next={specWorldRead op 0 2}"
+        else
+          let one (k : Nat) : String :=
+            if k < c then s!"{s + k}:{if isBits then ffiBit (specTable op) (s + k) else ffiReg (specTable op) (s + k)}" else "null"
+          s!"rc=Ok items={",".intercalate ((List.range take).map one ++ ["nullit=null"])} next={specWorldRead op 0 2}"
+      (m, sp)
+    | none => bad
+  | ["nullobj"] =>
+    let np := CtlTarget.null.returnCode
+    (s!"add=0000 upd=0000 del=0000 get={np},{np},{np},{np} fltadd={np}",
+     "add=0000 upd=0000 del=0000 get=NullParameter,NullParameter,NullParameter,NullParameter fltadd=NullParameter")
+  | _ => bad
+
 /-! ### dispatcher -/
 
 def runFfi (tok : List String) : String × String :=
@@ -678,6 +1080,8 @@ def runFfi (tok : List String) : String × String :=
   | _ :: "flt" :: rest => runFfiFlt rest
   | _ :: "fltadd" :: rest => runFltAdd rest
   | _ :: "fnet" :: rest => runFnet rest
+  | _ :: "reuse" :: rest => runReuse rest
+  | _ :: "ctl" :: rest => runCtl rest
   | _ => ("unknown-suite ffi", "unknown-suite ffi")
 
 end Rodbus.Driver
